@@ -64,3 +64,12 @@ Definition kind_flags (k : kind) : bool * bool :=
 Definition kcheck (c : kcase) : bool :=
   existsb (fun k => let '(h, o) := kind_flags k in Bool.eqb h (kc_has_out c) && Bool.eqb o (kc_out_optional c))
           (kfind (kc_name c) call_kinds).
+
+(* ---- _dispatch_call_args on synthetic signatures ---- *)
+Record dcase := { dc_sig : csig; dc_res : option (bool * bool) }.   (* (has_out, out_optional) or rejected *)
+Definition dcheck (c : dcase) : bool :=
+  match dispatch (dc_sig c), dc_res c with
+  | Some k, Some (h, o) => let '(h', o') := kind_flags k in Bool.eqb h h' && Bool.eqb o o'
+  | None, None => true
+  | _, _ => false
+  end.
